@@ -20,4 +20,45 @@ RECIPES = {
                 "straddles the end",
         "assumptions": COMMON_ASSUME,
     },
+    "C02": {
+        "level": "model_checking",
+        "mc": {"quick": [("MC_Decode", "MC_Decode_q")], "thorough": [("MC_Decode", "MC_Decode_t")]},
+        "families": {"quick": [("parse", 2500, 4), ("ident", 500, 1)], "thorough": [("parse", 20000, 12), ("ident", 5000, 2)]},
+        "reasons": ("value", "panic"),
+        "rule": "A: for 18 structures x 2 classes x 4 byte-order values: every field set to each of {0,1,0x7f..,0x80..,all-ones} "
+                "over two per-byte-distinct backgrounds (top bits clear / set), ABI encoder vs code decoder, plus the packed-field "
+                "accessors over their whole domain; B: random / boundary bytes of each structure decoded by the crate and by the "
+                "spec; every case is distinct by construction",
+        "assumptions": COMMON_ASSUME + ["private fields (vd_aux, vd_next, vn_aux, vn_next, vna_next, vda_next) are observed through iteration (C13/C16), not here"],
+    },
+    "C09": {
+        "level": "model_checking",
+        "mc": {"quick": [("MC_Table", "MC_Table_q", 12)], "thorough": [("MC_Table", "MC_Table_t", 14)]},
+        "families": {"quick": [("table", 800, 4)], "thorough": [("table", 6000, 12)]},
+        "reasons": ("value", "panic"),
+        "rule": "A: table state machine: entry types x classes x orders x byte lengths 0..es+1, 2es-1..2es+1, 3es, 4es-1 "
+                "(ragged tails) x every access script of length 2 over len/is_empty/iter/into_iter/get(i), i in 0..len+2, "
+                "usize::MAX, usize::MAX/entsize; B: random lengths/contents/scripts of up to 5 accesses on one table object",
+        "assumptions": COMMON_ASSUME,
+    },
+    "C15": {
+        "level": "model_checking",
+        "mc": {"quick": [("MC_StrTab", "MC_StrTab_q")], "thorough": [("MC_StrTab", "MC_StrTab_t", 12)]},
+        "families": {"quick": [("strtab", 500, 4)], "thorough": [("strtab", 4000, 12)]},
+        "reasons": ("value", "panic"),
+        "rule": "A: every table of <= 5 (thorough 7) bytes over {NUL,'a',0xC3,0xA9} x every offset 0..len+2 and usize::MAX x "
+                "{get_raw,get}; B: random tables up to 300 bytes, offsets incl. usize::MAX; error kinds are not compared "
+                "(the property only says 'an error')",
+        "assumptions": COMMON_ASSUME,
+    },
+    "C10": {
+        "level": "model_checking",
+        "mc": {"quick": [("MC_Ident", "MC_Ident_q")], "thorough": [("MC_Ident", "MC_Ident_t")]},
+        "families": {"quick": [("ident", 1500, 2)], "thorough": [("ident", 10000, 8)]},
+        "reasons": ("value", "panic"),
+        "rule": "A: all 256 EI_DATA / EI_CLASS / EI_VERSION values, all single-byte and 4^4 (thorough 6^4) multi-byte magic "
+                "corruptions, two-defect idents, short buffers x 4 byte-order specs; error kind and payload are compared when "
+                "the ident has exactly one defect",
+        "assumptions": COMMON_ASSUME,
+    },
 }
